@@ -13,6 +13,7 @@ import (
 
 	simplefixgo "github.com/b2broker/simplefix-go"
 	"github.com/b2broker/simplefix-go/session/messages"
+	fixgen "github.com/b2broker/simplefix-go/tests/fix44"
 	"pgregory.net/rapid"
 
 	"verif/harness/evid"
@@ -43,10 +44,30 @@ type C04Case struct {
 	Hangup  bool         `json:"hangup"`     // every peer closes its connection right after its last byte, without waiting
 	SlowNs  int64        `json:"slow_ns"`    // virtual time the incoming handler spends on each message (0: none)
 	AtOnce  bool         `json:"at_once"`    // all connections are pending at the listener at the same moment
+	ReusePair   []string `json:"reuse_pair,omitempty"` // two MDReqIDs: ONE message object is sent with the first, changed to the second and sent again while the peer is not reading (no other senders in such a case); both must arrive as handed over
+	GateEvery   int      `json:"gate_every"`   // > 0: the application's recorder subscribes per message type, and an all-types subscriber registered before it returns false for every k-th message: such a message is still delivered to its type's subscriber
 	RemoveAfter int      `json:"remove_after"` // > 0: every connection has a second all-types subscriber, which the application removes (with the id it was given) from inside the first one's k-th call; the first one must go on receiving
 	SetupNs int64        `json:"setup_ns"`   // acceptor: virtual time the new-client callback takes before it registers its handlers, while the peer's first bytes are already arriving
 	Conns   []ConnScript `json:"conns"`
 	Senders [][]OutOp    `json:"senders"`
+}
+
+var c04Types = []string{"D", "0", "A", "8", "V", "AE", "10", "1"}
+
+// subscribe registers the recorder of one connection: for all types, or - with a
+// refusing all-types gate in front - once per message type.
+func subscribe(c *C04Case, h interface {
+	HandleIncoming(string, simplefixgo.IncomingHandlerFunc) int64
+}, r *recorder) {
+	if c.GateEvery == 0 {
+		h.HandleIncoming(simplefixgo.AllMsgTypes, r.handle)
+		return
+	}
+	var n atomic.Int64
+	h.HandleIncoming(simplefixgo.AllMsgTypes, func([]byte) bool { return n.Add(1)%int64(c.GateEvery) != 0 })
+	for _, typ := range c04Types {
+		h.HandleIncoming(typ, r.handle)
+	}
 }
 
 var tricky = []string{"10=", "10=123", "|10=000|", "x10=", "=10=", "110=5", "10", "1", "10=0\x0010=1"}
@@ -67,7 +88,7 @@ func genWireMsg(t *rapid.T, id string) []byte {
 		}
 		toks = append(toks, rig.F(tag, val))
 	}
-	typ := rapid.SampledFrom([]string{"D", "0", "A", "8", "V", "AE", "10", "1"}).Draw(t, "type")
+	typ := rapid.SampledFrom(c04Types).Draw(t, "type")
 	return ref.Assemble(ref.StdTags, "FIX.4.4", typ, toks)
 }
 
@@ -152,8 +173,17 @@ func genC04(t *rapid.T) *C04Case {
 	for i := 0; i < nc; i++ {
 		c.Conns = append(c.Conns, genConnScript(t, i))
 	}
-	if rapid.IntRange(0, 4).Draw(t, "removesSubscriber") == 0 {
+	if rapid.IntRange(0, 4).Draw(t, "gated") == 0 {
+		c.GateEvery = rapid.IntRange(1, 4).Draw(t, "gateEvery")
+	}
+	if c.GateEvery == 0 && rapid.IntRange(0, 4).Draw(t, "removesSubscriber") == 0 {
 		c.RemoveAfter = rapid.IntRange(1, 5).Draw(t, "removeAfter")
+	}
+	if rapid.IntRange(0, 5).Draw(t, "reusePair") == 0 {
+		a := rapid.StringMatching(`[A-Z]{4,20}`).Draw(t, "pairFirst")
+		b := rapid.StringMatching(`[a-z]{1,20}`).Draw(t, "pairSecond")
+		c.ReusePair = []string{a, b}
+		return c
 	}
 	ns := rapid.IntRange(0, 6).Draw(t, "nSenders")
 	for s := 0; s < ns; s++ {
@@ -253,7 +283,7 @@ func checkC04(c *C04Case, rec *evid.Rec) (vs []pbt.Violation) {
 				if c.SetupNs > 0 {
 					time.Sleep(time.Duration(c.SetupNs)) // the application takes its time; the peer does not wait
 				}
-				h.HandleIncoming(simplefixgo.AllMsgTypes, recs[i].handle)
+				subscribe(c, h, recs[i])
 				if c.RemoveAfter > 0 {
 					id2 := h.HandleIncoming(simplefixgo.AllMsgTypes, func([]byte) bool { return true })
 					recs[i].after, recs[i].then = c.RemoveAfter, func() { _ = h.RemoveIncomingHandler(simplefixgo.AllMsgTypes, id2) }
@@ -275,7 +305,7 @@ func checkC04(c *C04Case, rec *evid.Rec) (vs []pbt.Violation) {
 		} else {
 			ir = rig.NewInitiatorRig(c.Buf, 10*time.Second)
 			conns[0] = ir.C
-			ir.H.HandleIncoming(simplefixgo.AllMsgTypes, recs[0].handle)
+			subscribe(c, ir.H, recs[0])
 			if c.RemoveAfter > 0 {
 				id2 := ir.H.HandleIncoming(simplefixgo.AllMsgTypes, func([]byte) bool { return true })
 				recs[0].after, recs[0].then = c.RemoveAfter, func() { _ = ir.H.RemoveIncomingHandler(simplefixgo.AllMsgTypes, id2) }
@@ -284,6 +314,19 @@ func checkC04(c *C04Case, rec *evid.Rec) (vs []pbt.Violation) {
 			h0 = ir.H
 			close(ready0)
 			ir.Serve()
+			synctest.Wait()
+		}
+		if len(c.ReusePair) == 2 {
+			<-ready0
+			conns[0].Stall(true) // the peer is not reading: what is handed over stays queued / with the writer
+			obj := fixgen.NewMarketDataRequestReject()
+			obj.SetMDReqID(c.ReusePair[0])
+			go func() { _ = h0.Send(obj) }()
+			synctest.Wait()
+			obj.SetMDReqID(c.ReusePair[1]) // the application re-uses its message object for the next send
+			go func() { _ = h0.Send(obj) }()
+			synctest.Wait()
+			conns[0].Stall(false)
 			synctest.Wait()
 		}
 		var wg sync.WaitGroup
@@ -482,6 +525,22 @@ func checkC04(c *C04Case, rec *evid.Rec) (vs []pbt.Violation) {
 		}
 		rec.Hist("style:" + cs.Style)
 	}
+	if len(c.ReusePair) == 2 && len(conns) > 0 {
+		msgs, rest := ref.Split(conns[0].Stream(), "10")
+		var ids []string
+		for _, m := range msgs {
+			id, _ := ref.Lookup(m, "262")
+			ids = append(ids, id)
+			if err := ref.Framed(m, ref.StdTags); err != nil {
+				vs = append(vs, pbt.V("outbound-reused-object-torn", "one message object sent twice (MDReqID %q, then %q) while the peer was not reading: a message on the wire is not well formed (%v): %s", c.ReusePair[0], c.ReusePair[1], err, ref.Show(m)))
+				break
+			}
+		}
+		if len(vs) == 0 && (len(rest) != 0 || fmt.Sprint(ids) != fmt.Sprint(c.ReusePair)) {
+			vs = append(vs, pbt.V("outbound-reused-object", "one message object sent twice (MDReqID %q, then %q) while the peer was not reading: the wire carries MDReqIDs %v (rest %q)", c.ReusePair[0], c.ReusePair[1], ids, rest))
+		}
+		rec.Hist("one-object-sent-twice-while-peer-stalled")
+	}
 	// ---- outbound oracle ----
 	if len(c.Senders) > 0 && len(conns) > 0 {
 		captured := conns[0].Stream()
@@ -583,6 +642,9 @@ func checkC04(c *C04Case, rec *evid.Rec) (vs []pbt.Violation) {
 	}
 	if c.RemoveAfter > 0 {
 		rec.Hist("application-removes-a-subscriber")
+	}
+	if c.GateEvery > 0 {
+		rec.Hist("per-type-subscribers-behind-a-refusing-gate")
 	}
 	rec.Hist(fmt.Sprintf("buf=%d", c.Buf))
 	rec.Hist(fmt.Sprintf("connections=%d", len(c.Conns)))
